@@ -112,7 +112,7 @@ theorem closePeer_shutdown (x : Ctx) (c : Nat) (p : Peer) (r : Route) (hw : (rs 
     refine hA.trans ((outExt_fprB _ c).trans ((outExt_fprC _ c p).trans ?_))
     exact ⟨[.closed c], rfl⟩
   obtain ⟨post, hpost⟩ := hrest
-  refine ⟨pre, post, _, ?_, ?_⟩
+  refine ⟨pre, post, nextSend (emit (clearAll x l₁ c) (.timerDestroy r.timer)), ?_, ?_⟩
   · rw [hpost, hcr]; simp
   · -- the timer ids destroyed by this close are pairwise distinct
     have hrs := rs_closePeer x c p hp
